@@ -66,7 +66,14 @@ PARTIAL = ("Names with non-ASCII cased letters are outside the model (Base/Bytes
            "(C07_no_overdue_queue_entry), an entry that is not yet due stays queued "
            "(C07_second_announcement_stays_queued), and when it is due the announcement IS sent for every family in which the "
            "service is still announceable - still registered, interface and registry still there, records active "
-           "(C07_due_second_announcement_sent_partial; that hypothesis is not derived from the history). Timer coverage of this layer: Props/C12Registry.v. "
+           "(C07_due_second_announcement_sent_partial; that hypothesis is not derived from the history); the completion step "
+           "of the probing handler announces a waiting service whose records are active, sets Announced and queues the "
+           "second announcement (C07_probing_pass_announces_completed_service). STILL NOT proved over histories of the "
+           "daemon model: 'never speaks for a name that has not completed three probes since the interface (re)appeared / "
+           "the name was forgotten' (outside 42/44/48) and 'reaches Announced within registration + jitter + 750 ms (+1 s "
+           "per lost tie-break) on never-late schedules': both need the exact timing of one probe through daemon "
+           "iterations with other services' joins and tie-breaks, i.e. a per-(interface, name) invariant through every "
+           "daemon function; they stay at the level of the registry machine plus the executed monitor. Timer coverage of this layer: Props/C12Registry.v. "
            "Proved for all operation sequences of the registry machine and for single daemon steps: the other "
            "clauses (see Props/C07.v). NOT proved as a theorem over histories: that chk_C07 accepts every run of the daemon "
            "model (three probes and the wait before every response, second announcement, wake-up requests); this is "
